@@ -29,7 +29,7 @@ from deep.config.tracepoint_config import TracepointConfigService, ConfigUpdateL
 class ConfigService:
     """This is the main service that handles config for DEEP."""
 
-    def __init__(self, custom: Dict[str, any] = None, tracepoints=TracepointConfigService()):
+    def __init__(self, custom: Dict[str, any] = None, tracepoints: TracepointConfigService = None):
         """
         Create a new config object.
 
@@ -37,6 +37,9 @@ class ConfigService:
         """
         if custom is None:
             custom = {}
+        if tracepoints is None:
+            # one tracepoint config per config service (a default argument would be shared by every agent of the process)
+            tracepoints = TracepointConfigService()
         self._plugins = []
         self.__custom = custom
         self._resource = None
